@@ -13,8 +13,10 @@ PROOF_FILES = ["Proof/C10.v", "Lib/Bytestr.v"]
 MANIFEST = {
     "text": "Coq theorems over all finite status-event streams (induction over the stream with the invariant 'the "
             "in-progress table is the image of the open segments'): the callbacks of _StreamToTestRecord are exactly "
-            "the tests of the segment specification (one per final status at its position, the unfinished ones at "
-            "stopTestRun in popitem order), every id-carrying event belongs to exactly one reported test, each record "
+            "the tests of the segment specification (one per final status at its position, in the order of those events; "
+            "the unfinished ones at stopTestRun - the statement and the comparison take what stopTestRun reports as a "
+            "multiset of whole tests, the model's popitem order being one allowed order), every id-carrying event "
+            "belongs to exactly one reported test, each record "
             "has the last status given (else unknown), the latest tags, first/final timestamps and per file name the "
             "non-empty chunks concatenated in arrival order typed by the first; StreamSummary counts and buckets; "
             "StreamToExtendedDecorator = the same after dropping 'exists'. The hand-written Gallina model is tied to "
@@ -22,8 +24,8 @@ MANIFEST = {
             "executable statement spec_okb, proved to imply the readable Spec.",
     "note": "Trusted: Coq kernel + vm_compute; the harness (generator, driver, Gallina printer); ids, routes, tags, "
             "file names, mime types and timestamps mapped to small numbers; tables (_status_map, INTERIM/FINAL_STATES, "
-            "StreamSummary handlers) regenerated from the live code into Gen/Streamtabs.v. All theorems closed under "
-            "the global context.",
+            "StreamSummary handlers) regenerated on every run into Gen/Streamtabs.v by probing the public behaviour "
+            "of the live classes. All theorems closed under the global context.",
     "technique": "Coq proof (refinement to a segment specification, induction over event streams) + "
                  "model/implementation correspondence in coqc",
     "ref": "6 C10",
@@ -42,7 +44,8 @@ ASSUMPTIONS = ["text/* attachments carry bytes that decode in their charset (wf 
                "status words are the eight documented ones or None"]
 EXPLANATION = ("Theorems in coq/Props/C10.v over all event streams; correspondence: the same stream is fed to "
                "StreamToDict, StreamSummary and StreamToExtendedDecorator(ExtendedTestResult) of the working tree and "
-               "to coq/Model/StreamRec.v; observation = on_test dicts, StreamSummary attributes, extended log.")
+               "to coq/Model/StreamRec.v; observation = on_test dicts, StreamSummary attributes, extended log, each "
+               "taken before and after stopTestRun (what stopTestRun adds is compared as a multiset of whole tests).")
 
 # ---------------- the small alphabets ----------------
 IDS = {1: "t.alpha", 2: "t.βeta"}
@@ -145,7 +148,20 @@ def ext_log_obs(events):
     return out
 
 
+def summary_lists(summ):
+    """StreamSummary's public counter and lists, as test ids"""
+    return {"run": summ.testsRun,
+            "failures": [rev(IDS, c.id()) for c, _ in summ.failures],
+            "errors": [rev(IDS, c.id()) for c, _ in summ.errors],
+            "skipped": [rev(IDS, c.id()) for c, _ in summ.skipped],
+            "xfail": [rev(IDS, c.id()) for c, _ in summ.expectedFailures],
+            "uxs": [rev(IDS, c.id()) for c in summ.unexpectedSuccesses]}
+
+
 def drive(case):
+    """Public observation only: the on_test callback, StreamSummary's public attributes, the event record of the
+    doubles.  What the status() calls reported is separated from what stopTestRun adds (the statement fixes the
+    order of the former only)."""
     from testtools.testresult.real import StreamSummary, StreamToDict, StreamToExtendedDecorator
     dicts = []
 
@@ -163,18 +179,19 @@ def drive(case):
     for e in case["events"]:
         for s in sinks:
             s.status(**kwargs_of(e))      # fresh tag set per consumer: records keep the caller's object
+    n_dicts = len(dicts)
+    pre = summary_lists(summ)
+    n_ext = len(ext._events)
     for s in sinks:
         s.stopTestRun()
     return {
-        "dicts": dicts,
-        "sum": {"run": summ.testsRun,
-                "failures": [rev(IDS, c.id()) for c, _ in summ.failures],
-                "errors": [rev(IDS, c.id()) for c, _ in summ.errors],
-                "skipped": [rev(IDS, c.id()) for c, _ in summ.skipped],
-                "xfail": [rev(IDS, c.id()) for c, _ in summ.expectedFailures],
-                "uxs": [rev(IDS, c.id()) for c in summ.unexpectedSuccesses],
-                "ok": bool(summ.wasSuccessful())},
-        "ext": ext_log_obs(ext._events),
+        "dicts": dicts[:n_dicts],
+        "flush": dicts[n_dicts:],
+        "pre": pre,
+        "sum": summary_lists(summ),
+        "ok": bool(summ.wasSuccessful()),
+        "ext": ext_log_obs(ext._events[:n_ext]),
+        "extflush": ext_log_obs(ext._events[n_ext:]),
     }
 
 
@@ -233,14 +250,18 @@ def t_lev(l):
     return "LKeyError"
 
 
+def t_sumlists(s):
+    return q.record([("sl_run", q.nat(s["run"])), ("sl_failures", nats(s["failures"])), ("sl_errors", nats(s["errors"])),
+                     ("sl_skipped", nats(s["skipped"])), ("sl_xfail", nats(s["xfail"])), ("sl_uxs", nats(s["uxs"]))])
+
+
 def term(case, o):
     i = q.record([("evs", q.lst([t_event(e) for e in case["events"]]))])
-    s = o["sum"]
-    so = q.record([("so_run", q.nat(s["run"])), ("so_failures", nats(s["failures"])), ("so_errors", nats(s["errors"])),
-                   ("so_skipped", nats(s["skipped"])), ("so_xfail", nats(s["xfail"])), ("so_uxs", nats(s["uxs"])),
-                   ("so_ok", q.boolean(s["ok"]))])
-    ob = q.record([("o_dicts", q.lst([t_rec(d) for d in o["dicts"]])), ("o_sum", so),
-                   ("o_ext", q.lst([t_lev(l) for l in o["ext"]]))])
+    ob = q.record([("o_dicts", q.lst([t_rec(d) for d in o["dicts"]])),
+                   ("o_flush", q.lst([t_rec(d) for d in o["flush"]])),
+                   ("o_pre", t_sumlists(o["pre"])), ("o_sum", t_sumlists(o["sum"])), ("o_ok", q.boolean(o["ok"])),
+                   ("o_ext", q.lst([t_lev(l) for l in o["ext"]])),
+                   ("o_extflush", q.lst([t_lev(l) for l in o["extflush"]]))])
     return q.pair(i, ob)
 
 
